@@ -10,13 +10,17 @@ def key(v):
     return vt_str(v)
 
 
-def edge_relations(b, bb):
+def edge_relations(b, bb, _depth=0, _seen=None):
     """All atomic relations known to hold when block bb executes (from transitive control dependences).
 
     Returns list of (op, lhs_tree, rhs_tree, switch_bb). Conjunctions/disjunctions are decomposed only
     where sound: on the true edge of `a & b` both hold; on the false edge of `a | b` both negations hold.
-    Bare booleans are returned as ('True'|'False', tree, None, switch_bb)."""
+    Bare booleans are returned as ('True'|'False', tree, None, switch_bb). A boolean local assigned in several
+    branches (`let f = a && b;` is `f = if a { b } else { false }`) that is known to be true/false can only have
+    been assigned by the definitions not contradicting that value: when exactly one is left, its value and the
+    relations under which it was assigned hold as well."""
     out = []
+    _seen = _seen if _seen is not None else set()
     for (a, s) in b.control_deps_trans(bb):
         t = b.blocks[a]["term"]
         if t["k"] != "switch":
@@ -36,28 +40,45 @@ def edge_relations(b, bb):
                 val = False
         if val is None or t.get("discr_ty") != "bool":
             continue
-        _decompose(v, val, a, out)
+        _decompose(v, val, a, out, b, _depth, _seen)
     return out
 
 
-def _decompose(v, val, sw, out):
+def _decompose(v, val, sw, out, b=None, depth=0, seen=None):
     k = v[0]
     if k == "un" and v[1] == "Not":
-        _decompose(v[2], not val, sw, out)
+        _decompose(v[2], not val, sw, out, b, depth, seen)
         return
     if k == "bin" and v[1] in NEG:
         op = v[1] if val else NEG[v[1]]
         out.append((op, v[2], v[3], sw))
         return
     if k == "bin" and v[1] == "BitAnd" and val:
-        _decompose(v[2], True, sw, out)
-        _decompose(v[3], True, sw, out)
+        _decompose(v[2], True, sw, out, b, depth, seen)
+        _decompose(v[3], True, sw, out, b, depth, seen)
         return
     if k == "bin" and v[1] == "BitOr" and not val:
-        _decompose(v[2], False, sw, out)
-        _decompose(v[3], False, sw, out)
+        _decompose(v[2], False, sw, out, b, depth, seen)
+        _decompose(v[3], False, sw, out, b, depth, seen)
         return
     out.append(("True" if val else "False", v, None, sw))
+    if b is not None and k == "local" and depth < 3 and (v[1], val) not in seen:
+        seen.add((v[1], val))
+        ds = b.defs().get(v[1], [])
+        if 2 <= len(ds) <= 4 and all(d[0] == "stmt" and d[3]["k"] == "assign" and not d[3]["pl"]["p"] for d in ds):
+            feasible = []
+            for d in ds:
+                dv = b.rvalue_value(d[3]["rv"])
+                if dv[0] == "const" and dv[2] in ("true", "false") and (dv[2] == "true") != val:
+                    continue
+                feasible.append((d, dv))
+            if len(feasible) == 1:
+                d, dv = feasible[0]
+                if not (dv[0] == "const"):
+                    _decompose(dv, val, sw, out, b, depth + 1, seen)
+                for r in edge_relations(b, d[1], depth + 1, seen):
+                    if r not in out:
+                        out.append(r)
 
 
 def holds(rels, op, lhs_pred, rhs_pred):
